@@ -526,7 +526,10 @@ pub fn op_yaml(p: &[&str], out: &mut Vec<String>) {
                     match serde_yaml::from_str::<CfgWrapper>(&s) {
                         Err(e) => out.push(format!("YAML DESERR {}", hex(&e.to_string()))),
                         Ok(w2) => {
-                            out.push(format!("YAMLEQ {}", w == w2));
+                            // `ParserNode` equality is identity (UUID keys, not serialized), so
+                            // the reloaded structure is compared field by field with the graph
+                            // it was written from, nodes by their data.
+                            out.push(format!("YAMLEQ {}", reload_equals_graph(&s, &cfg)));
                             match serde_yaml::to_string(&w2) {
                                 Ok(s2) => out.push(format!("YAML2EQ {}", s == s2)),
                                 Err(e) => out.push(format!("YAML SERERR2 {}", hex(&e.to_string()))),
@@ -537,6 +540,53 @@ pub fn op_yaml(p: &[&str], out: &mut Vec<String>) {
             }
         }
     }
+}
+
+fn reload_equals_graph(yaml: &str, cfg: &Cfg) -> String {
+    use riscv_analysis::cfg::NodeWrapper;
+    use riscv_analysis::parser::ParserNodeData;
+    use std::collections::HashSet;
+    let Ok(loaded) = serde_yaml::from_str::<Vec<NodeWrapper>>(yaml) else {
+        return "false:not-a-node-list".to_string();
+    };
+    if loaded.len() != cfg.nodes().len() {
+        return "false:length".to_string();
+    }
+    for (i, (w, n)) in loaded.iter().zip(cfg.nodes().iter()).enumerate() {
+        let labels: HashSet<String> = n.labels().iter().map(|l| l.get().to_string()).collect();
+        let nexts: HashSet<usize> = n.nexts().iter().map(|x| idx_of(cfg, x)).collect();
+        let prevs: HashSet<usize> = n.prevs().iter().map(|x| idx_of(cfg, x)).collect();
+        let mut fe: Vec<usize> = n.functions().iter().map(|f| idx_of(cfg, &f.entry())).collect();
+        let mut fx: Vec<usize> = n.functions().iter().map(|f| idx_of(cfg, &f.exit())).collect();
+        let (mut we, mut wx) = (w.func_entry.clone(), w.func_exit.clone());
+        fe.sort_unstable();
+        fx.sort_unstable();
+        we.sort_unstable();
+        wx.sort_unstable();
+        let node_same = w.node.data() == n.node().data()
+            || serde_yaml::to_string(&w.node).ok() == serde_yaml::to_string(&n.node()).ok();
+        let checks = [
+            ("node", node_same),
+            ("labels", w.labels == labels),
+            ("nexts", w.nexts == nexts),
+            ("prevs", w.prevs == prevs),
+            ("func_entry", we == fe),
+            ("func_exit", wx == fx),
+            ("reg_values_in", w.reg_values_in == n.reg_values_in()),
+            ("reg_values_out", w.reg_values_out == n.reg_values_out()),
+            ("memory_values_in", w.memory_values_in == n.memory_values_in()),
+            ("memory_values_out", w.memory_values_out == n.memory_values_out()),
+            ("live_in", w.live_in == n.live_in()),
+            ("live_out", w.live_out == n.live_out()),
+            ("u_def", w.u_def == n.u_def()),
+        ];
+        for (name, ok) in checks {
+            if !ok {
+                return format!("false:node{i}:{name}");
+            }
+        }
+    }
+    "true".to_string()
 }
 
 #[allow(dead_code)]
